@@ -56,10 +56,12 @@ def _layout(sizes, kind, rng):
 
 
 class _Gen:
-    def __init__(self, rng):
+    def __init__(self, rng, cap):
         self.rng = rng
         self.cfgs = []
         self.kinds = ["id", "rev", "rnd"]
+        self.cap = cap                    # bound on (#basis inputs) * 2^N of one configuration
+        self.skipped = 0
 
     def add(self, t, sizes, wk, k=0, mod=0, flag=0, cv=(1, 1), poly=(), nc=0, kind=None):
         if kind is None:
@@ -67,6 +69,12 @@ class _Gen:
         if nc:
             sizes = [nc] + list(sizes)
             wk = wk + 1 if wk else 0
+        free = sum(sz for r, sz in enumerate(sizes) if r + 1 != wk)
+        if flag and t in ("OutMultiplier", "SignedOutMultiplier", "OutSquare", "SignedOutSquare"):
+            free -= sizes[-2]                                  # zeroed output register: a single value
+        if (1 << (free + sum(sizes))) > self.cap:
+            self.skipped += 1
+            return
         lay = _layout(list(sizes), kind, self.rng)
         self.cfgs.append({"t": t, "k": int(k), "mod": int(mod), "flag": int(flag), "cv": [int(x) for x in cv],
                           "poly": [{"c": int(c), "e": [int(x) for x in e]} for c, e in poly], "nc": nc, "wk": wk,
@@ -82,8 +90,8 @@ def _coprimes(mod):
 
 def make_configs(tier, seed):
     rng = random.Random(seed * 7919 + 56)
-    g = _Gen(rng)
     thorough = tier == "thorough"
+    g = _Gen(rng, 1 << 22)
     B = 4 if thorough else 3                      # largest value register
     # ---- Adder / PhaseAdder
     for n in range(1, B + 1):
@@ -200,6 +208,7 @@ def make_configs(tier, seed):
     for kind in ("id", "rnd"):
         g.add("QubitSum", [1, 1, 1], 0, kind=kind)
         g.add("QubitCarry", [1, 1, 1, 1], 0, kind=kind)
+    make_configs.skipped = g.skipped
     return g.cfgs
 
 
@@ -402,24 +411,27 @@ def run_config(job):
                 rec["obs"] = [_probs_only(ops, N, i) for i in ins]
                 rows = None
             else:
-                B = max(1, MAX_BATCH_AMPS >> N)
-                obs = []
+                B = max(2, MAX_BATCH_AMPS >> N)
+                obs, rows = [], None
                 for s in range(0, D, B):
                     ch = ins[s:s + B]
-                    st = np.zeros((len(ch), 1 << N), dtype=complex)
+                    last = s + B >= D and D > 1
+                    st = np.zeros((len(ch) + last, 1 << N), dtype=complex)
                     st[np.arange(len(ch)), ch] = 1
-                    obs += _read(_simulate(ops, N, st), N, ch)
+                    if last:
+                        st[len(ch), ins] = 1 / math.sqrt(D)        # the uniform superposition over the domain rides along
+                    res = _simulate(ops, N, st)
+                    obs += _read(res[:len(ch)], N, ch)
+                    if last:
+                        rows = res[len(ch):]
                 rec["obs"] = obs
                 # the documented read-out, unbatched: BasisState in, probabilities out
-                for i in singles:
+                for i in singles[:1 if N >= 12 else None]:
                     o1 = _probs_only(ops, N, i)
                     ob = next(o for o in obs if o["i"] == i)
                     rec["single"] += 1
                     if o1["o"] != ob["o"] or (o1["st"] == "mixed") != (ob["st"] == "mixed"):
                         ob["o"], ob["st"] = o1["o"], "mixed"          # the two read-outs must agree
-                u = np.zeros((1, 1 << N), dtype=complex)
-                u[0, ins] = 1 / math.sqrt(D)
-                rows = _simulate(ops, N, u)
             if rows is not None and D > 1:
                 row = rows[0]
                 e = (row.shape[0].bit_length() - 1) - N
@@ -686,7 +698,7 @@ def run(tier, seed, cfgs=None):
            "rule": "ArithGen.tla tabulates every basis input of the documented domain of each configuration; non-trivial = distinct "
                    "(configuration, decomposition path) validated ok in which at least one basis input is mapped to a different basis state",
            "samples": samples, "exhaustive": False, "exhaustive_basis_inputs_per_configuration": True,
-           "configurations": len(cfgs),
+           "configurations": len(cfgs), "configurations_skipped_over_size_cap": getattr(make_configs, "skipped", 0),
            "basis_inputs_tabulated": sum(j["n"] for j in tabs.values()),
            "evaluations_per_template": per_t, "paths": {k: sorted(v) for k, v in sorted(paths_seen.items())},
            "unbatched_basisstate_probs_readouts": sum(rec["single"] for recs in results.values() for rec in recs),
